@@ -203,6 +203,54 @@ def runMulti (c : Case) : List String := Id.run do
     | _ => pure ()
   return out.reverse
 
+/-! ### dyn family: every answer judged against the framework as it stands -/
+
+def semOfKind (k : String) : Option Sem :=
+  if k == "co" || k == "co_att" then some .CO
+  else if k == "st" || k == "st_att" then some .ST
+  else if k == "pr" then some .PR
+  else if k.startsWith "dummy_" then Sem.ofString? (k.drop 6).toString
+  else none
+
+def runDyn (c : Case) : List String := Id.run do
+  let inl := (c.lines.find? (fun l => l.startsWith "in ")).getD ""
+  let kind := kvGetD (toks inl) "kind" ""
+  let some σ := semOfKind kind | return ["verdict BAD unknown dynamic solver kind"]
+  let mut af : AF := ⟨0, []⟩
+  let mut labels : List Nat := []
+  let mut q : Option Query := none
+  let mut qi := 0
+  let mut out : List String := []
+  for l in c.lines do
+    let ts := toks l
+    match ts with
+    | ["Q", what, lab] =>
+      qi := qi + 1
+      q := some ⟨σ, if what.startsWith "dc" then .DC else .DS, what.endsWith "1", [natOf lab]⟩
+    | "fw" :: rest =>
+      af := ⟨natOf (kvGetD rest "n" "0"), attList (kvGetD rest "atts" "")⟩
+      labels := natList (kvGetD rest "labels" "-")
+    | "ans" :: _ :: rest =>
+      match q with
+      | none => out := "verdict BAD answer without query" :: out
+      | some qq =>
+        let dense := (posOf labels (qq.args.headD 0)).getD 9999
+        let st := kvGetD rest "status" "" == "YES"
+        let cs := kvGetD rest "cert" "-"
+        let members := kvGetD rest "members" "1" == "1"
+        if cs.contains '?' then out := s!"verdict BAD {qi} certificate names an argument that is not in the current framework" :: out
+        else
+          let a : Answer := .acc st (if cs == "-" then none else some (parseExt cs))
+          match checkAnswer af { qq with args := [dense] } a with
+          | .ok _ =>
+            if members then out := s!"verdict ok {qi}" :: out
+            else out := s!"verdict BAD {qi} certificate members are not the current framework's arguments (stale id)" :: out
+          | .error e => out := s!"verdict BAD {qi} {e}" :: out
+      q := none
+    | "panic" :: _ => out := s!"verdict PANIC {qi}" :: out; q := none
+    | _ => pure ()
+  return out.reverse
+
 def main : IO Unit := do
   let stdin ← IO.getStdin
   let mut lines : Array String := #[]
@@ -220,6 +268,7 @@ def main : IO Unit := do
       | "enc" => runEnc c.lines
       | "multi" => runMulti c
       | "equiv" => runEquiv c.lines
+      | "dyn" => runDyn c
       | "sat" => runSat c.lines
       | "read" => runRead c.lines
       | "write" => runWrite c.lines
